@@ -14,7 +14,8 @@ LEVEL_TEXT = ("Model-based stateful testing: a Hypothesis rule-based machine dri
 TECHNIQUE = "stateful model-based testing (Hypothesis RuleBasedStateMachine) against a per-stream specification model + bounded exhaustive histories"
 RULE = ("histories over 2..4 streams of PGN 126720/130816: start message (length 0..60, sometimes up to 223, fresh sequence counter, "
         "payload tagged per message, last-frame padding none/00/FF/random), deliver next / out of order / duplicate / drop / late frame of the "
-        "stream's previous message (other sequence counter); oracle after every "
+        "stream's previous message (other sequence counter) / stray duplicate of a completed message's first frame / real time passing "
+        "between frames (process clock advanced); plus wide histories (2 .. 2200 concurrently open or abandoned streams); oracle after every "
         "step: returned payload == payload of that stream's current message iff this frame completes it, else nothing; non-trivial = >= 2 "
         "streams overlapping inside a message or >= 1 reorder/dup/drop or non-zero padding; distinct = history hash")
 ASSUMPTIONS = [
@@ -38,7 +39,7 @@ class Interp:
         self.cur = {}      # stream index -> dict(payload, seq, frames, got:set, done:bool)
         self.prev = {}     # stream index -> previous message of that stream (for stale frames)
         self.ops = []
-        self.stats = {"reorder": 0, "dup": 0, "drop": 0, "pad": 0, "overlap": 0, "stale": 0, "dupfirst": 0}
+        self.stats = {"reorder": 0, "dup": 0, "drop": 0, "pad": 0, "overlap": 0, "stale": 0, "dupfirst": 0, "warp": 0}
 
     def _send(self, stream, data: bytes):
         pgn, src, dest = STREAMS[stream]
@@ -77,6 +78,12 @@ class Interp:
                 return [(f"{tag}|decoder-error|{type(e).__name__}", f"step {len(self.ops) - 1} {op}: {type(e).__name__}: {e}")]
             if r is not None:
                 return [(f"{tag}|stale-frame-delivered", f"step {len(self.ops) - 1} {op}: a frame of the previous message (other sequence counter) produced a message")]
+            return []
+        if op["op"] == "warp":
+            # real time passes between two inputs (the process clock is advanced); nothing is delivered
+            from ..common import CLOCK
+            CLOCK.warp(op["seconds"])
+            self.stats["warp"] += 1
             return []
         if op["op"] == "dupfirst":
             # a stray duplicate of the first frame of a message that has already been returned (multi-frame messages only: a
@@ -142,7 +149,7 @@ class Interp:
 
     def nontrivial(self):
         st_ = self.stats
-        return st_["overlap"] > 0 or st_["reorder"] or st_["dup"] or st_["drop"] or st_["pad"] or st_["stale"] or st_["dupfirst"]
+        return st_["overlap"] > 0 or st_["reorder"] or st_["dup"] or st_["drop"] or st_["pad"] or st_["stale"] or st_["dupfirst"] or st_["warp"]
 
 
 def run_history(ops, fmt="ebyte"):
@@ -255,6 +262,11 @@ def make_machine_factory(ctx: Ctx, fmt: str):
                 s = data.draw(st.sampled_from(cands), label="stream")
                 self._do({"op": "dupfirst", "stream": s})
 
+            @precondition(lambda self: any(self._pending(s) for s in range(self.n_streams)))
+            @rule(seconds=st.sampled_from([0.2, 1.0, 5.0, 120.0]))
+            def time_passes(self, seconds):
+                self._do({"op": "warp", "stream": 0, "seconds": seconds})
+
             def _stale_ok(self, s):
                 p, c = self.it.prev.get(s), self.it.cur.get(s)
                 return p is not None and c is not None and len(p["frames"]) > 1 and not c.get("sealed")
@@ -319,6 +331,7 @@ def _exhaustive_shard(ctx: Ctx, item):
     pA = fp.header(130816, 3) + bytes([0xA1] * 13)    # 15 bytes: frames of 6, 7, 2
     pB_same_pgn = fp.header(130816, 4) + bytes([0xB2] * 13)
     pB_other = fp.header(126720, 5) + bytes([0xB2] * 13)
+    n_hist = 0
     for sa, sb, sB in pairs:
         pB = pB_same_pgn if sB == 1 else pB_other
         A = [("A", 0)] + [("A", k) for k in sa]
@@ -337,10 +350,11 @@ def _exhaustive_shard(ctx: Ctx, item):
                     seen[who].add(k)
                 res, it = run_history(ops, fmt)
                 ctx.count()
+                n_hist += 1
                 ctx.nontrivial_extra += 1
                 for b, w, c in res:
                     ctx.report(b, w, c)
-    ctx.klass("exhaustive_histories", 0)
+    ctx.klass("exhaustive_histories", n_hist)
 
 
 def _loss_shard(ctx: Ctx, item):
@@ -382,6 +396,63 @@ def _loss_shard(ctx: Ctx, item):
                         ctx.report(b, w, c)
 
 
+def _wide_shard(ctx: Ctx, item):
+    """Many concurrent streams / many abandoned partial messages on one decoder (the reassembly table must not lose anything)."""
+    from nmea2000.decoder import NMEA2000Decoder
+    mode, n, fmt = item
+    keys = [(126720, src, dest) for dest in (255, 1, 2, 3, 4, 5, 6, 7, 8) for src in range(0, 252)][:n + 1]
+    dec = NMEA2000Decoder()
+
+    def send(key, data):
+        i = wire.ident(key[0], key[1], key[2], 3)
+        if fmt == "ebyte":
+            return dec.decode_tcp(wire.ebyte(i, data))
+        if fmt == "usb":
+            return dec.decode_usb(wire.usb(i, data))
+        return dec.decode_yacht_devices_string(wire.yd(i, data))
+
+    def payload_of(j):
+        return fp.header(126720, j) + bytes([(j * 7 + k) & 0xFF or 1 for k in range(11)])     # 13 bytes: frames of 6 and 7
+    out = []
+    case = {"wide": mode, "streams": n, "format": fmt}
+    ctx.count()
+    ctx.nontrivial_extra += 1
+    try:
+        if mode == "concurrent":
+            # n messages open at the same time: all first frames, then all second frames
+            for j in range(n):
+                r = send(keys[j], wire.segment(payload_of(j), j % 8)[0])
+                if r is not None:
+                    out.append((f"C04|{fmt}|early", f"wide: first frame of stream {j} returned a message", case))
+            lost = 0
+            for j in range(n):
+                r = send(keys[j], wire.segment(payload_of(j), j % 8)[1])
+                if r is None:
+                    lost += 1
+                elif fp.recon(r) != int.from_bytes(payload_of(j), "little"):
+                    out.append((f"C04|{fmt}|payload-mixed", f"wide: stream {j} of {n} returned a payload that was not sent on it", case))
+            if lost:
+                out.append((f"C04|{fmt}|not-delivered", f"wide: {lost} of {n} concurrently open messages were never returned although all their frames arrived", case))
+        else:
+            # n abandoned messages (first frame only) on n streams, then a complete message on another stream
+            for j in range(n):
+                send(keys[j], wire.segment(payload_of(j), j % 8)[0])
+            fr = wire.segment(payload_of(n), 3)
+            r0 = send(keys[n], fr[0])
+            r1 = send(keys[n], fr[1])
+            if r0 is not None:
+                out.append((f"C04|{fmt}|early", "wide: first frame returned a message", case))
+            if r1 is None:
+                out.append((f"C04|{fmt}|not-delivered", f"wide: after {n} abandoned partial messages on other streams a complete message was not returned", case))
+            elif fp.recon(r1) != int.from_bytes(payload_of(n), "little"):
+                out.append((f"C04|{fmt}|payload-mixed", f"wide: after {n} abandoned partial messages a message with a wrong payload was returned", case))
+    except Exception as e:
+        out.append((f"C04|{fmt}|decoder-error|{type(e).__name__}", f"wide {mode} {n}: {type(e).__name__}: {e}", case))
+    ctx.klass(f"wide_{mode}", 1)
+    for b, w, c in out:
+        ctx.report(b, w, c)
+
+
 def run(ctx: Ctx):
     fmts = ["ebyte"] if ctx.quick else ["ebyte", "usb", "yd"]
     n = 40 if ctx.quick else 400
@@ -400,6 +471,9 @@ def run(ctx: Ctx):
     for fmt in fmts:
         pmap(ctx, _exhaustive_shard, [(s, fmt, pads) for s in shards if s])
         pmap(ctx, _loss_shard, [(fmt, pads)], procs=1)
+    sizes = [2, 17, 64, 255, 256, 257, 300, 1023, 1024, 1025, 2200]
+    pmap(ctx, _wide_shard, [(m, n, fmts[i % len(fmts)]) for i, n in enumerate(sizes) for m in ("concurrent", "abandoned")])
+    ctx.notes["wide_histories"] = f"{sizes} concurrently open / abandoned streams on one decoder"
     ctx.exhaustive = False
     ctx.notes["bounded_exhaustive_family"] = (f"2 streams x one 3-frame message each x all interleavings x all orders x each non-first frame "
                                               f"dropped/once/twice ({len(pairs)} sequence pairs x {len(pads)} paddings x {len(fmts)} formats); "
@@ -407,5 +481,10 @@ def run(ctx: Ctx):
 
 
 def replay(ctx: Ctx, case):
+    if "wide" in case:
+        sub = Ctx(ctx.pid)
+        sub.known_open = {}
+        _wide_shard(sub, (case["wide"], case["streams"], case["format"]))
+        return [(b, v["what"], v["case"]) for b, v in sub.found.items()]
     res, _ = run_history(case["ops"], case.get("format", "ebyte"))
     return res
